@@ -51,7 +51,10 @@ type (
 	}
 	// ServerConnectionProvider provides the currently connected server connection for a player.
 	ServerConnectionProvider interface {
+		// ConnectedServer returns the server connection of the responder's player, or nil.
 		ConnectedServer() ServerConnection
+		// ConnectedServerOf returns the server connection of the given player, or nil.
+		ConnectedServerOf(Player) ServerConnection
 	}
 	// ServerConnection represents a server connection for a player.
 	ServerConnection interface {
@@ -188,10 +191,13 @@ func (r *bungeeCordMessageResponder) prepareForwardMessage(in io.Reader) (forwar
 }
 
 func (r *bungeeCordMessageResponder) sendServerResponse(in []byte) {
+	sendServerResponse(r.ConnectedServer(), in)
+}
+
+func sendServerResponse(serverConn ServerConnection, in []byte) {
 	if len(in) == 0 {
 		return
 	}
-	serverConn := r.ConnectedServer()
 	if serverConn == nil {
 		return
 	}
@@ -201,7 +207,8 @@ func (r *bungeeCordMessageResponder) sendServerResponse(in []byte) {
 
 func (r *bungeeCordMessageResponder) processForwardToPlayer(in io.Reader) {
 	r.readPlayer(in, func(player Player) {
-		r.sendServerResponse(r.prepareForwardMessage(in))
+		// The message is delivered to the server the named player is connected to.
+		sendServerResponse(r.ConnectedServerOf(player), r.prepareForwardMessage(in))
 	})
 }
 
@@ -436,7 +443,7 @@ func (r *bungeeCordMessageResponder) processKickRaw(in io.Reader) {
 
 func (r *bungeeCordMessageResponder) processGetPlayerServer(in io.Reader) {
 	r.readPlayer(in, func(player Player) {
-		s := r.ConnectedServer()
+		s := r.ConnectedServerOf(player) // the server of the named player
 		if s == nil {
 			return
 		}
